@@ -16,6 +16,7 @@ import (
 	"os/exec"
 	"path/filepath"
 	"regexp"
+	"sort"
 	"strings"
 	"time"
 
@@ -58,8 +59,9 @@ func tryReplay(P *Prog, ex *Exec, o *Obl, v *Verdict, tmp string, seed int) *Rep
 		return rr
 	}
 	modelOnly := false
-	if !panicKinds[o.Kind] {
-		rr.Note = "no harness: replay of contract clauses (kind " + o.Kind + ") is not generated; the obligation itself is the evidence"
+	clauseReplay := (o.Kind == "post" || o.Kind == "objinv") && o.Clause != nil && o.ClCx != nil && strings.HasPrefix(fn.Pkg.Pkg.Path(), lalPrefix)
+	if !panicKinds[o.Kind] && !clauseReplay {
+		rr.Note = "no harness: replay of this kind of contract clause (" + o.Kind + ") is not generated; the obligation itself is the evidence"
 		modelOnly = true
 	}
 	// model query: quantified assumptions are dropped (over-approximation; the
@@ -87,20 +89,38 @@ func tryReplay(P *Prog, ex *Exec, o *Obl, v *Verdict, tmp string, seed int) *Rep
 		plans = append(plans, g.plan(in.Type, in.Val, 0))
 	}
 	P.genMu.Unlock()
+	getv := ""
 	if len(req.exprs) > 0 {
-		b.WriteString("(get-value (" + strings.Join(req.exprs, "\n ") + "))\n")
+		getv = "(get-value (" + strings.Join(req.exprs, "\n ") + "))\n"
 	}
 	file := filepath.Join(tmp, "model-"+sanitize(o.Name)+".smt2")
 	if len(file) > 200 {
 		file = file[:200] + ".smt2"
 	}
-	os.WriteFile(file, []byte(b.String()), 0o644)
 	defer os.Remove(file)
+	// prefer small inputs: first ask for a model in which every input length is at most 4096
+	small, tiny := "", ""
+	for _, t := range g.lenTerms {
+		small += "(assert " + ex.ar.cmp("<=", idxT, t, ex.idx(4096)) + ")\n"
+		tiny += "(assert " + ex.ar.cmp("<=", idxT, t, ex.idx(64)) + ")\n"
+	}
+	for _, it := range g.intTerms {
+		// index-like scalars small as well, so that the bytes that matter are among those rebuilt
+		tiny += "(assert " + ex.ar.cmp("<=", IntT{it.bits, false}, it.term, ex.ar.litI(IntT{it.bits, false}, 64)) + ")\n"
+	}
+	base := b.String()
+	base = strings.TrimSuffix(base, "(check-sat)\n")
 	var out string
-	for _, sc := range []solverCfg{solvers[1], solvers[0]} {
-		st, o2, _ := runSolver(context.Background(), sc, file, 10000, seed)
-		if st == "sat" {
-			out = o2
+	for _, extra := range []string{tiny, small, ""} {
+		os.WriteFile(file, []byte(base+extra+"(check-sat)\n"+getv), 0o644)
+		for _, sc := range []solverCfg{solvers[1], solvers[0]} {
+			st, o2, _ := runSolver(context.Background(), sc, file, 8000, seed)
+			if st == "sat" {
+				out = o2
+				break
+			}
+		}
+		if out != "" {
 			break
 		}
 	}
@@ -110,6 +130,9 @@ func tryReplay(P *Prog, ex *Exec, o *Obl, v *Verdict, tmp string, seed int) *Rep
 	}
 	vals := parseGetValue(out, len(req.exprs))
 	if vals == nil {
+		if os.Getenv("GOVC_DEBUG_MODEL") != "" {
+			fmt.Fprintf(os.Stderr, "MODEL OUTPUT (%d exprs):\n%s\n", len(req.exprs), truncate(out, 3000))
+		}
 		rr.Note = "no model: could not parse solver values"
 		return rr
 	}
@@ -132,6 +155,9 @@ func tryReplay(P *Prog, ex *Exec, o *Obl, v *Verdict, tmp string, seed int) *Rep
 	if modelOnly {
 		rr.Note += " (candidate input from the solver model attached)"
 		return rr
+	}
+	if clauseReplay {
+		return replayClause(P, ex, o, g, plans, rr, tmp)
 	}
 	// build the test
 	var call string
@@ -231,6 +257,13 @@ type genCtx struct {
 	imports  map[string]bool
 	tooBig   bool
 	declared map[string]bool
+	lenTerms []string
+	intTerms []intTerm
+}
+
+type intTerm struct {
+	term string
+	bits int
 }
 
 func (g *genCtx) initLoad(key, addr string) (string, bool) {
@@ -255,6 +288,9 @@ func (g *genCtx) plan(t types.Type, v *Val, depth int) *valPlan {
 		case l.Int != nil:
 			p.kind = "int"
 			p.scalar = g.req.add(v.T)
+			if l.Int.Bits >= 16 {
+				g.intTerms = append(g.intTerms, intTerm{v.T, l.Int.Bits})
+			}
 		case l.Sort == SBool:
 			p.kind = "bool"
 			p.scalar = g.req.add(v.T)
@@ -279,6 +315,7 @@ func (g *genCtx) plan(t types.Type, v *Val, depth int) *valPlan {
 		p.kind = "slice"
 		p.nilIdx = g.req.add("(ite (= " + v.C[0].T + " nil) 1 0)")
 		p.lenIdx = g.req.add(v.C[2].T)
+		g.lenTerms = append(g.lenTerms, v.C[2].T)
 		el := ex.ls.of(t.Underlying().(*types.Slice).Elem())
 		if el.Int != nil && el.Int.Bits == 8 {
 			for i := 0; i < replayBytes; i++ {
@@ -294,6 +331,7 @@ func (g *genCtx) plan(t types.Type, v *Val, depth int) *valPlan {
 	case LString:
 		p.kind = "string"
 		p.lenIdx = g.req.add(v.C[2].T)
+		g.lenTerms = append(g.lenTerms, v.C[2].T)
 		for i := 0; i < replayBytes; i++ {
 			e, ok := g.initLoad(ex.s8Key(), ex.elemAddr(v, ex.idx(int64(i))))
 			if !ok {
@@ -346,6 +384,9 @@ func (g *genCtx) planAt(t types.Type, addr, hint string, depth int) *valPlan {
 		case l.Int != nil:
 			p.kind = "int"
 			p.scalar = g.req.add(e)
+			if l.Int.Bits >= 16 {
+				g.intTerms = append(g.intTerms, intTerm{e, l.Int.Bits})
+			}
 		case l.Sort == SBool:
 			p.kind = "bool"
 			p.scalar = g.req.add(e)
@@ -372,6 +413,7 @@ func (g *genCtx) planAt(t types.Type, addr, hint string, depth int) *valPlan {
 		p.kind = "slice"
 		p.nilIdx = g.req.add("(ite (= " + b + " nil) 1 0)")
 		p.lenIdx = g.req.add(ln)
+		g.lenTerms = append(g.lenTerms, ln)
 		el := ex.ls.of(t.Underlying().(*types.Slice).Elem())
 		if el.Int != nil && el.Int.Bits == 8 {
 			sv0 := &Val{C: []*Val{sv(b), sv(off), sv(ln), sv(ln)}}
@@ -626,3 +668,132 @@ func parseGetValue(out string, n int) []string {
 }
 
 var _ = ssa.NaiveForm
+
+// replayClause: run the real function on the model's input and evaluate the
+// violated clause, translated to Go, on its actual results.
+func replayClause(P *Prog, ex *Exec, o *Obl, g *genCtx, plans []*valPlan, rr *ReplayResult, tmp string) *ReplayResult {
+	fn := ex.top
+	imports := map[string]bool{"testing": true, "fmt": true, "os": true}
+	params := map[string]bool{}
+	resMap := map[string]string{}
+	for _, p := range fn.Params {
+		params[p.Name()] = true
+	}
+	res := fn.Signature.Results()
+	var rnames []string
+	for i := 0; i < res.Len(); i++ {
+		rn := fmt.Sprintf("r%d", i)
+		rnames = append(rnames, rn)
+		resMap[fmt.Sprintf("result%d", i)] = rn
+		if n := res.At(i).Name(); n != "" && n != "_" {
+			resMap[n] = rn
+			delete(params, n)
+		}
+	}
+	if res.Len() == 1 {
+		resMap["result"] = "r0"
+	}
+	if o.SelfIs != "" {
+		resMap["self"] = "a_" + o.SelfIs
+	}
+	P.genMu.Lock()
+	decls, expr, terr := clauseToGo(o.ClCx, fn.Pkg.Pkg, o.Clause, params, resMap, imports)
+	P.genMu.Unlock()
+	if terr != "" {
+		rr.Note = "no harness: the clause cannot be evaluated in Go (" + terr + "); candidate input from the solver model attached"
+		return rr
+	}
+	var b strings.Builder
+	var args []string
+	faithful := true
+	for i, in := range ex.inputs {
+		c1, f1 := g.render(plans[i])
+		c2, _ := g.render(plans[i])
+		faithful = faithful && f1
+		b.WriteString(fmt.Sprintf("\ta_%s := %s\n\told_%s := %s\n\t_, _ = a_%s, old_%s\n", in.Name, c1, in.Name, c2, in.Name, in.Name))
+		args = append(args, "a_"+in.Name)
+	}
+	if g.tooBig {
+		rr.Note = "model asks for an allocation above the replay limit; not run"
+		return rr
+	}
+	for p := range g.imports {
+		imports[p] = true
+	}
+	var call string
+	if fn.Signature.Recv() != nil {
+		call = fmt.Sprintf("(%s).%s(%s)", args[0], fn.Name(), strings.Join(args[1:], ", "))
+	} else {
+		call = fmt.Sprintf("%s(%s)", fn.Name(), strings.Join(args, ", "))
+	}
+	if len(rnames) > 0 {
+		call = strings.Join(rnames, ", ") + " := " + call + "\n\t_ = []interface{}{" + strings.Join(rnames, ", ") + "}"
+	}
+	var ib strings.Builder
+	var ips []string
+	for p := range imports {
+		ips = append(ips, p)
+	}
+	sort.Strings(ips)
+	for _, p := range ips {
+		ib.WriteString(fmt.Sprintf("\t%q\n", p))
+	}
+	test := fmt.Sprintf(`package %s
+
+import (
+%s)
+
+%s
+func TestVerifReplay(t *testing.T) {
+	defer func() {
+		if r := recover(); r != nil {
+			fmt.Fprintf(os.Stdout, "VERIF-REPLAY-PANIC: %%v\n", r)
+		}
+	}()
+%s	%s
+	if %s {
+		fmt.Fprintln(os.Stdout, "VERIF-REPLAY-CLAUSE-HOLDS")
+	} else {
+		fmt.Fprintln(os.Stdout, "VERIF-REPLAY-CLAUSE-VIOLATED")
+	}
+}
+`, fn.Pkg.Pkg.Name(), ib.String(), decls, b.String(), call, expr)
+	rr.Test = test
+	dir := ""
+	if pos := fn.Pos(); pos.IsValid() {
+		dir = filepath.Dir(P.fset.Position(pos).Filename)
+	}
+	if dir == "" {
+		rr.Note = "no harness: package directory unknown"
+		return rr
+	}
+	testFile := filepath.Join(tmp, "replay_clause_test.go")
+	os.WriteFile(testFile, []byte(test), 0o644)
+	ov := map[string]map[string]string{"Replace": {filepath.Join(dir, "zz_verif_replay_test.go"): testFile}}
+	ovFile := filepath.Join(tmp, "overlay_clause.json")
+	ob, _ := json.Marshal(ov)
+	os.WriteFile(ovFile, ob, 0o644)
+	ctx, cancel := context.WithTimeout(context.Background(), 180*time.Second)
+	defer cancel()
+	cmd := exec.CommandContext(ctx, "bash", "-c", fmt.Sprintf("ulimit -v 8000000; cd %s && go test -v -overlay %s -vet=off -count=1 -timeout 60s -run '^TestVerifReplay$' %s", P.repo, ovFile, fn.Pkg.Pkg.Path()))
+	cmd.Env = append(os.Environ(), "GOFLAGS=-mod=mod", "GOPROXY=off", "GOSUMDB=off", "GOTOOLCHAIN=local")
+	outb, _ := cmd.CombinedOutput()
+	rr.Output = truncate(string(outb), 3000)
+	rr.Cmd = "go test -v -overlay <overlay.json> -vet=off -count=1 -timeout 60s -run '^TestVerifReplay$' " + fn.Pkg.Pkg.Path()
+	switch {
+	case strings.Contains(string(outb), "VERIF-REPLAY-CLAUSE-VIOLATED"):
+		rr.Confirmed = true
+		rr.Note = "the real function's result violates the clause on the model's input"
+	case strings.Contains(string(outb), "VERIF-REPLAY-PANIC"):
+		rr.Confirmed = true
+		rr.Note = "the real function panics on the model's input (while evaluating the call or the clause)"
+	case strings.Contains(string(outb), "VERIF-REPLAY-CLAUSE-HOLDS"):
+		rr.Note = "the clause holds on the real code for the model's input (the model does not reproduce)"
+		if !faithful {
+			rr.Note += "; the model could not be rebuilt faithfully (interface/func/map values or foreign unexported fields)"
+		}
+	default:
+		rr.Note = "replay test did not build or run"
+	}
+	return rr
+}
